@@ -10,7 +10,9 @@ use crate::version::zerv::PreReleaseLabel;
 
 static PEP440_REGEX: LazyLock<Regex> = LazyLock::new(|| {
     Regex::new(
-        r#"(?ix)
+        // (?-u): ASCII-only case folding. With Unicode folding "ſ" matches "s" and the
+        // Kelvin sign matches "k", so "1.0.poſt1" or "1.0+ſ" would be accepted
+        r#"(?ix-u)
         ^v?
         (?:
             (?:(?P<epoch>[0-9]+)!)?                           # epoch
